@@ -13,7 +13,7 @@ import (
 // functions the main loop reaches in its own package), whatever holds it: a *BlockHeight, a struct field behind a
 // pointer, or a loop variable handed to a helper.
 func runSyncMark(a *Analyzer, r *Results, isForwardCall func(*ssa.Call) bool) {
-	run := a.P.Func("(*leanhelix.MainLoop).run")
+	run := a.P.Func(idMainRun)
 	isBH := func(t types.Type) bool { return typeShort(t) == "primitives.BlockHeight" }
 	// functions of the package reachable from run by static calls
 	reach := map[*ssa.Function]bool{}
